@@ -215,38 +215,111 @@ def r1_disambiguation(ctx):
     ctx.ob(rule, name, 'predicates compare with the moving piece\'s own file / rank character', okc, found=uk, expected='captured get_file_char(from) / get_rank_char(from)')
 
 
-def r2_filter(ctx):
-    rule = 'C13.R2-ambiguity-filter'
+def _strip(t):
+    while isinstance(t, tuple) and t and (t[0] in ('ref', 'der') or (t[0] == 'fld' and t[2] == '0' and t[1][0] != 'fld') or t[0] == 'discr'
+                                          or (t[0] == 'call' and t[1].endswith('Clone>::clone'))):
+        t = t[2][0] if t[0] == 'call' else t[1]
+    return t
+
+
+def _side(t):
+    """classify one side of an equality in the ambiguity filter: (who, what) with who in {elem, move} and what in {from, to, piece}"""
+    t0 = t
+    t = _strip(t)
+    if t[0] == 'call' and t[1] in (CHESSMOVE + '::from_square', CHESSMOVE + '::to_square'):
+        who = {('p', 2): 'elem', ('p', 1): 'move'}.get(_strip(t[2][0]))
+        return (who, 'from' if t[1].endswith('from_square') else 'to') if who else None
+    # piece on the origin square: board.get(x.from_square()).Some.0.0
+    if t[0] == 'fld' and t[2] == '0' and t[1][0] == 'fld' and t[1][2] == 'Some.0':
+        g = _strip(t[1][1])
+        if g[0] == 'call' and g[1] == BOARD + '::get':
+            inner = _side(g[2][1])
+            if inner and inner[1] == 'from':
+                return (inner[0], 'piece')
+    return None
+
+
+def _atom(t):
+    """(what, polarity) for an equality/inequality between the element's and the move's from / to / piece"""
+    neg = False
+    while t[0] == 'un' and t[1] == 'Not':
+        t = t[2]
+        neg = not neg
+    if t[0] == 'eq':
+        a, b = t[1], t[2]
+    elif t[0] == 'bin' and t[1] in ('Eq', 'Ne'):
+        a, b = t[2], t[3]
+        neg = neg != (t[1] == 'Ne')
+    elif t[0] == 'call' and (t[1].endswith('PartialEq>::eq') or t[1].endswith('PartialEq>::ne')) and len(t[2]) == 2:
+        a, b = t[2]
+        neg = neg != t[1].endswith('::ne')
+    else:
+        return None
+    sa, sb = _side(a), _side(b)
+    if sa and sb and sa[1] == sb[1] and {sa[0], sb[0]} == {'elem', 'move'}:
+        return (sa[1], not neg)
+    return None
+
+
+def filter_table(ctx, name, clo_name, snaps):
+    """truth table kept(from_equal, to_equal, piece_equal) of the per-candidate body, whether it pushes (for_each) or answers (filter)"""
     facts = ctx.facts
-    name = AN + 'get_ambiguous_moves'
-    clos = facts.closures_of(name)
-    ok = False
-    found = None
-    for c in clos:
-        ro = {CHESSMOVE + '::from_square', CHESSMOVE + '::to_square', BOARD + '::get'}
-        outs = Engine(facts, readonly=ro).run(c.name)
-        ctx.touch(c.name)
-        pushing = [o for o in outs if o.kind == 'return' and any(e[0] == 'call' and e[1].endswith('::push') for e in o.events)]
-        non = [o for o in outs if o.kind == 'return' and not any(e[0] == 'call' and e[1].endswith('::push') for e in o.events)]
-        if len(pushing) != 1:
+    ro = {CHESSMOVE + '::from_square', CHESSMOVE + '::to_square', BOARD + '::get'}
+    outs = Engine(facts, readonly=ro).run(clo_name)
+    ctx.touch(clo_name)
+    rows = []
+    problems = []
+    for o in outs:
+        if o.kind == 'abort':
+            continue                       # the unwrap of board.get(origin) (an origin square is never empty)
+        if o.kind != 'return':
+            problems.append(o.kind)
             continue
-        o = pushing[0]
-        cs = [(show(a), v) for a, v in o.conds if not (a[0] == 'discr' and 'get@' in show(a) and v == 1)]
-        found = [show_cond(c_) for c_ in o.conds]
-        txt = ' ; '.join('%s => %s' % c_ for c_ in cs)
-        diff_origin = any('from_square' in a and 'upvar' in a and (is_false(v) if '==' in a or 'Eq' in a else is_true(v)) for a, v in cs)
-        same_dest = any('to_square' in a and 'upvar' in a and is_true(v) for a, v in cs)
-        same_piece = any(('get@' in a or 'Some.0.0' in a) and 'to_square' not in a and 'from_square' in a and 'upvar' in a and is_true(v)
-                         and ('discr' in a or '==' in a) for a, v in cs if 'from_square@' in a and a.count('upvar') >= 1 and 'Some.0.0' in a)
-        ok = diff_origin and same_dest and same_piece and len(o.conds) <= 6
-        pushed = [e for e in o.events if e[0] == 'call' and e[1].endswith('::push')][0]
-        ok = ok and ('clone' in show(pushed[2][1]) or show(pushed[2][1]).startswith('*arg2'))
-    ctx.ob(rule, name, 'kept iff different origin, same destination, same piece kind', ok, found=found,
-           expected='other.from != from && other.to == to && other_piece == piece')
+        env = {}
+        for a, v in o.conds:
+            a = subst_upvars(a, snaps)
+            if a[0] == 'discr' and _strip(a)[0] == 'call' and _strip(a)[1] == BOARD + '::get':
+                continue
+            k = _atom(a)
+            if k is None or not (is_true(v) or is_false(v)):
+                problems.append(show_cond((a, v)))
+                continue
+            env[k[0]] = (is_true(v) == k[1])
+        pushes = [e for e in o.events if e[0] == 'call' and e[1].endswith('::push')]
+        val = subst_upvars(o.value, snaps) if isinstance(o.value, tuple) else o.value
+        if pushes:
+            el = _strip(pushes[0][2][1])
+            keep = True if el == ('p', 2) else None
+            if keep is None:
+                problems.append('pushes ' + show(pushes[0][2][1]))
+        elif val == ('agg', 'tuple', None, None, ()):
+            keep = False
+        elif val[0] == 'c':
+            keep = bool(val[1])
+        else:
+            k = _atom(val)
+            if k is None:
+                problems.append('value ' + show(val))
+                keep = None
+            else:
+                keep = ('atom',) + k
+        rows.append((env, keep))
+    table = {}
+    for f in (False, True):
+        for t in (False, True):
+            for p_ in (False, True):
+                full = {'from': f, 'to': t, 'piece': p_}
+                r = None
+                for env, keep in rows:
+                    if all(full[k] == v for k, v in env.items()):
+                        r = (full[keep[1]] == keep[2]) if isinstance(keep, tuple) else keep
+                        break
+                table[(f, t, p_)] = r
+    return table, problems
 
 
-def r2b_filter_scope(ctx):
-    """the filter of R2 is applied to every candidate of every move: no return of get_ambiguous_moves bypasses the scan"""
+def r2_filter(ctx):
+    """rivals = all candidates with a different origin, the same destination and the same piece kind, for every piece kind"""
     rule = 'C13.R2-ambiguity-filter'
     facts = ctx.facts
     name = AN + 'get_ambiguous_moves'
@@ -255,21 +328,41 @@ def r2b_filter_scope(ctx):
     ctx.touch(name)
     rets = [o for o in outs if o.kind == 'return']
     bad = []
-    n = 0
+    tables = []
     for o in rets:
-        n += 1
         extra = [show_cond(c) for c in o.conds if not (c[0][0] == 'discr' and 'get@' in show(c[0]))]
         clo = [e for e in o.events if e[0] == 'closure' and e[1].startswith(name)]
-        scans = [e for e in o.events if e[0] == 'call' and (e[1].endswith('Iterator>::for_each') or e[1].endswith('::for_each'))]
-        snaps = sorted(show(x) for x in clo[0][2]) if clo else []
-        want = ['from_square@', 'to_square@', 'get@']
-        okc = bool(clo) and all(any(w in x_ for x_ in snaps) for w in want) and all('arg1' in x_ for x_ in snaps if 'square@' in x_)
-        oks = bool(scans) and 'arg2' in show(scans[0][2][0])
-        if extra or not okc or not oks:
-            bad.append({'conds': [show_cond(c) for c in o.conds], 'closure upvars': snaps, 'scan': [show(e[2][0]) for e in scans]})
-    ctx.ob(rule, name, 'every return scans all candidate moves with the filter, for every piece kind', n >= 1 and not bad, found=bad or '%d return path(s)' % n,
+        form = None
+        if len(clo) == 1:
+            snaps = clo[0][2]
+            scans = [e for e in o.events if e[0] == 'call' and e[1].endswith('::for_each')]
+            filt = [e for e in o.events if e[0] == 'call' and e[1].endswith('Iterator::filter')]
+            if scans and 'arg2' in show(scans[0][2][0]) and scans[0][2][1][0] == 'agg' and scans[0][2][1][2] == clo[0][1]:
+                # the list returned is the list the body pushes onto
+                lists = [sn for sn in snaps if sn == o.value]
+                form = 'for_each' if lists else None
+            elif filt and 'arg2' in show(filt[0][2][0]) and filt[0][2][1][0] == 'agg' and filt[0][2][1][2] == clo[0][1]:
+                # returned = collect(cloned(filter(candidates.iter(), body)))
+                v = o.value
+                chain = []
+                while v[0] == 'call' and v[1].split('::')[-1] in ('collect', 'cloned', 'copied') and len(v[2]) == 1:
+                    chain.append(v[1].split('::')[-1])
+                    v = v[2][0]
+                if v[0] == 'call' and v[1].endswith('Iterator::filter') and v[2] == filt[0][2] and chain and chain[0] == 'collect':
+                    form = 'filter'
+            if form:
+                tables.append((form,) + filter_table(ctx, name, clo[0][1], snaps))
+        if extra or not form:
+            bad.append({'conds': [show_cond(c) for c in o.conds], 'returns': show(o.value)[:160]})
+    ctx.ob(rule, name, 'every return scans all candidate moves with the filter, for every piece kind', len(rets) >= 1 and not bad, found=bad or '%d return path(s)' % len(rets),
            expected='candidate_moves.iter().for_each(filter capturing from/to/piece of this move) on every non-panicking path, under no further condition',
            why='a rival left out of the scan (early return for some piece kind or square) yields two legal moves with the same label')
+    want = {(f, t, p_): ((not f) and t and p_) for f in (False, True) for t in (False, True) for p_ in (False, True)}
+    ok = bool(tables) and all(tb == want and not pr for _, tb, pr in tables)
+    ctx.ob(rule, name, 'kept iff different origin, same destination, same piece kind', ok,
+           found=[{'form': fm, 'kept': sorted(str(k) for k, v in tb.items() if v), 'undecided': sorted(str(k) for k, v in tb.items() if v is None), 'unrecognised': pr}
+                  for fm, tb, pr in tables],
+           expected='other.from != from && other.to == to && other_piece == piece')
 
 
 def label_parts(ctx):
@@ -428,6 +521,5 @@ def r4_source(ctx):
 def run(ctx):
     r1_disambiguation(ctx)
     r2_filter(ctx)
-    r2b_filter_scope(ctx)
     r3_assembly(ctx)
     r4_source(ctx)
